@@ -224,4 +224,17 @@ func init() {
 			{ID: "R03.6", Title: "implicit multiplication bookkeeping only in comfort mode (see C03)", Floor: 3, Run: ruleR036},
 		},
 	})
+	register(&Property{
+		ID:        "C16",
+		Technique: "agreement checks between the parser's scope functions and the generator: dependence of the recorded outer name on Identifier.ThisName (R01.4), guard dominance in AddMap, wrapping order and name identity in GenerateWithMap, single-use check of closure scopes, dedup-key agreement in AddArgs",
+		Explanation: "Decides the structural conditions of implicit-attribute mode: the name a closure captures for an attribute is the map's name (R01.4); AddMap lets exactly the constants and static functions of the wrapped scope win and turns every other name into an attribute of the given map; GenerateWithMap uses one name as the single stack argument and as attribute owner, wraps the generator scope with AddMap and adds the arguments on top; " +
+			"a scope that contains closure parameters is used for that closure body only; the outer-name list is deduplicated by the value that is appended; closure literals carry the variables their scope was built from (R01.3). Not decided: behavioural equivalence with the explicitly rewritten program.",
+		Rules: []*Rule{
+			{ID: "R01.4", Title: "captured-name agreement between parseLiteral and AddArgs (see C01)", Floor: 1, Run: ruleR014},
+			{ID: "R16.1", Title: "AddMap: constants/static functions of the wrapped scope win, all other names become attributes of the map", Floor: 1, Run: ruleR161},
+			{ID: "R16.2", Title: "GenerateWithMap: one name for stack argument and attribute owner; AddMap wraps the generator scope, arguments on top", Floor: 1, Run: ruleR162},
+			{ID: "R16.3", Title: "closure scopes are used for the closure body only; outer names are deduplicated by the appended value", Floor: 4, Run: ruleR163},
+			{ID: "R01.3", Title: "scope recording of closure literals (see C01)", Floor: 3, Run: ruleR013},
+		},
+	})
 }
